@@ -167,6 +167,19 @@ static int simWaitPid(int pid, int* status, int options) {
     else if (r == pid && WIFSTOPPED(*status)) fired("real_child_stopped");
     return r;
 }
+// The file layer one level down: the platform's own FOpen/FPuts/FClose/Flush (src/Platforms/Gcc/UtestPlatform.cpp) run; what they call in libc is wrapped
+// at link time and, while a simulated run is under way, served by the in-memory file layer (stdout is the simulated console).
+static bool g_fileLayerActive = false;
+extern "C" FILE* __real_fopen(const char*, const char*); extern "C" int __real_fputs(const char*, FILE*); extern "C" int __real_fclose(FILE*); extern "C" int __real_fflush(FILE*);
+static bool isSimFile(FILE* f) { SimIO& io = simIO(); for (size_t i = 0; i < io.files.size(); i++) if ((FILE*)io.files[i] == f) return true; return false; }
+extern "C" FILE* __wrap_fopen(const char* name, const char* mode) { return g_fileLayerActive ? (FILE*)simFOpen(name, mode) : __real_fopen(name, mode); }
+extern "C" int __wrap_fputs(const char* s, FILE* f) {
+    if (g_fileLayerActive && f == stdout) { simFPuts(s, (PlatformSpecificFile)&simStdoutTag); return 1; }
+    if (g_fileLayerActive && isSimFile(f)) { simFPuts(s, (PlatformSpecificFile)f); return 1; }
+    return __real_fputs(s, f);
+}
+extern "C" int __wrap_fclose(FILE* f) { if (g_fileLayerActive && isSimFile(f)) { simFClose((PlatformSpecificFile)f); return 0; } return __real_fclose(f); }
+extern "C" int __wrap_fflush(FILE* f) { if (g_fileLayerActive && f == stdout) { simFlush(); return 0; } return __real_fflush(f); }
 extern "C" pid_t __wrap_fork(void) { return PS.active ? (pid_t)simFork() : __real_fork(); }
 extern "C" pid_t __wrap_waitpid(pid_t pid, int* status, int options) { return PS.active ? (pid_t)simWaitPid((int)pid, status, options) : __real_waitpid(pid, status, options); }
 extern "C" int __real_kill(pid_t pid, int sig);
@@ -514,7 +527,7 @@ static void staticWrapperEpilogue(const Desc& d, Obs& o) {
 }
 
 void executeRun(const Desc& d, Obs& o) {
-    installBasicSeams();
+    installBasicSeams(true); g_fileLayerActive = true;
     installHeapSeam(); g_steerSeed = d.seed; g_steerCount = 0; g_steerMode = (int)d.pi("bucket", -1); g_steerOn = d.pi("steer", 0) != 0 || g_steerMode >= 0;
     static bool first = true;
     if (first) { first = false; for (int i = 0; i < N_TARGETS; i++) g_tgt[i] = &g_init[i]; }
@@ -681,6 +694,7 @@ void executeRun(const Desc& d, Obs& o) {
     for (size_t i = 0; i < io.files.size(); i++) o.files.push_back(*io.files[i]);
     if (getenv("RUNSIM_DEBUG")) { for (size_t i = 0; i < o.fails.size(); i++) fprintf(stderr, "---- failure %zu: %s\n", i, o.fails[i].msg.c_str()); fprintf(stderr, "---- child console (%zu bytes)\n%s\n---- procLog:", o.childConsole.size(), o.childConsole.c_str()); for (size_t i = 0; i + 2 < o.procLog.size(); i += 3) fprintf(stderr, " (%lld,%lld,%lld)", (long long)o.procLog[i], (long long)o.procLog[i + 1], (long long)o.procLog[i + 2]); fprintf(stderr, "\n"); }
     if (d.pi("static_wrapper")) staticWrapperEpilogue(d, o);
+    g_fileLayerActive = false;
 }
 
 }  // namespace rs
